@@ -950,8 +950,16 @@ def gen_script(rng, impl, nops, focus, scripted=None):
         if full:
             orc.count("edge round on a full file")
             ok, _, _ = alloc_line(bsz, rng.choice([0, orc.st.nbits() * bsz - bsz]), F_NOOVER | F_NOSTATS | F_NOEXT)
-            return ok
+            return ok and make_room()
         return True
+
+    def make_room():
+        """the largest live region is given back, so that the rest of the script does not have to grow the bitmap for every
+        request (the list-based model is linear in the bitmap length)"""
+        if not orc.live:
+            return True
+        a = max(orc.live, key=lambda x: orc.live[x])
+        return read_pat(a) and do("free %d %d" % (a, orc.live[a]))
 
     def do_full_close():
         """close with an EMPTY free-extent tree (_fsm_close then writes no header and does not trim) after 0..2 bitmap
@@ -983,7 +991,7 @@ def gen_script(rng, impl, nops, focus, scripted=None):
         if not check_all_patterns(4):
             return False
         ok, _, _ = alloc_line(bsz, 0, F_NOOVER | F_NOSTATS | F_NOEXT)    # the file was full
-        return ok
+        return ok and make_room()
 
     def do_chk():
         s = orc.st
